@@ -6,6 +6,18 @@ Import ListNotations.
 Definition rt (s : schema) : Prop :=
   forall v, has_type s v = true -> exists j, jencode s v = Ok j /\ jdecode true s j = Ok v.
 
+(* Round trip of a struct through ANY object that agrees with its encoding on the keys the struct reads (what an
+   inlined / embedded struct field needs: it is decoded from the object of the enclosing struct). *)
+Definition rto (s : schema) : Prop :=
+  forall v, has_type s v = true ->
+  exists kvs, jencode s v = Ok (JObj kvs) /\
+    (forall k, In k (map fst kvs) -> In k (skeys s)) /\
+    str_nodup (map fst kvs) = true /\
+    forall o, (forall k j, In (k, j) kvs -> jlookup k o = Some j) ->
+              (forall k, In k (skeys s) -> ~ In k (map fst kvs) -> jlookup k o = None) ->
+              jdecode true s (JObj o) = Ok v.
+Definition rt2 (s : schema) : Prop := rt s /\ (is_struct s = true -> rto s).
+
 (* ---------- lookups in association lists ---------- *)
 Lemma existsb_streqb : forall k l, existsb (String.eqb k) l = true <-> In k l.
 Proof.
@@ -45,6 +57,33 @@ Proof.
     + apply IH; assumption.
 Qed.
 
+Lemma str_nodup_app : forall a b,
+  str_nodup (a ++ b) = true <-> str_nodup a = true /\ str_nodup b = true /\ (forall x, In x a -> ~ In x b).
+Proof.
+  induction a as [|x a IH]; intros b; cbn [app].
+  - split; [intros H; repeat split; auto|intros (_ & H & _); exact H].
+  - split.
+    + intros H. apply str_nodup_cons in H. destruct H as [Hn H]. apply IH in H. destruct H as (Ha & Hb & Hd).
+      split; [apply str_nodup_cons; split; [intros Hi; apply Hn; apply in_or_app; left; exact Hi|exact Ha]|].
+      split; [exact Hb|]. intros y [<-|Hy] Hin; [apply Hn; apply in_or_app; right; exact Hin|exact (Hd y Hy Hin)].
+    + intros (Ha & Hb & Hd). apply str_nodup_cons in Ha. destruct Ha as [Hn Ha]. apply str_nodup_cons. split.
+      * intros H. apply in_app_or in H. destruct H as [H|H]; [exact (Hn H)|exact (Hd x (or_introl eq_refl) H)].
+      * apply IH. split; [exact Ha|]. split; [exact Hb|]. intros y Hy. apply Hd. right. exact Hy.
+Qed.
+
+Lemma skeys_struct : forall ptr code fs, skeys (SStruct ptr code fs) = code_keys code ++ flat_keys fs.
+Proof.
+  intros ptr code fs. cbn [skeys]. f_equal. unfold flat_keys.
+  induction fs as [|[[k m] x] r IH]; [reflexivity|]. cbn [map List.concat fkeys]. rewrite <- IH. reflexivity.
+Qed.
+
+Lemma rto_rt : forall s, rto s -> rt s.
+Proof.
+  intros s H v Ht. destruct (H v Ht) as (kvs & E & Sub & Nd & D). exists (JObj kvs). split; [exact E|]. apply D.
+  - intros k j Hin. apply jlookup_in; assumption.
+  - intros k _ Hn. apply jlookup_notin. exact Hn.
+Qed.
+
 (* ---------- struct fields ---------- *)
 (* an empty value of an omittable type is the zero value the decoder leaves in the untouched field *)
 Lemma empty_zero : forall s v, omittable s = true -> is_empty s v = true -> v = zero_of s.
@@ -62,101 +101,142 @@ Proof.
   - destruct ptr; [|discriminate]. destruct v; try discriminate. reflexivity.
   - destruct v; try discriminate. destruct l; [reflexivity|discriminate].
   - destruct v; try discriminate. reflexivity.
+  - destruct ptr; destruct v; try discriminate; [reflexivity|]. apply String.eqb_eq in He. subst. reflexivity.
 Qed.
 
 Lemma fields_rt : forall fs,
-  Forall (fun f : string * fmode * schema => wf_schema (snd f) = true -> rt (snd f)) fs ->
+  Forall (fun f : string * fmode * schema => wf_schema (snd f) = true -> rt2 (snd f)) fs ->
   forallb (fun f => match f with (_, m, x) => negb (is_omit m) || omittable x end) fs = true ->
+  forallb (fun f => match f with (_, m, x) => negb (is_inline m) || is_struct x end) fs = true ->
   forallb (fun f => match f with (_, _, x) => wf_schema x end) fs = true ->
-  str_nodup (map fkey fs) = true ->
+  str_nodup (flat_keys fs) = true ->
   forall vs, fields_have_type has_type fs vs = true ->
   exists kvs,
     enc_fields jencode fs vs = Ok kvs /\
-    (forall k, In k (map fst kvs) -> In k (map fkey fs)) /\
+    (forall k, In k (map fst kvs) -> In k (flat_keys fs)) /\
     str_nodup (map fst kvs) = true /\
     forall o, (forall k j, In (k, j) kvs -> jlookup k o = Some j) ->
-              (forall k, In k (map fkey fs) -> ~ In k (map fst kvs) -> jlookup k o = None) ->
+              (forall k, In k (flat_keys fs) -> ~ In k (map fst kvs) -> jlookup k o = None) ->
               dec_fields (jdecode true) o fs = Ok vs.
 Proof.
-  intros fs HF. induction HF as [|[[k m] s] fr Hx _ IH]; intros Hom Hwf Hnd vs Ht.
+  intros fs HF. induction HF as [|[[k m] s] fr Hx _ IH]; intros Hom Hin Hwf Hnd vs Ht.
   - destruct vs; [|discriminate]. exists []. repeat split; auto.
   - destruct vs as [|v vr]; [discriminate|].
     cbn [fields_have_type] in Ht. apply andb_prop in Ht. destruct Ht as [Hv Hr].
-    cbn [forallb] in Hwf. apply andb_prop in Hwf. destruct Hwf as [Hws Hwr].
-    cbn [forallb] in Hom. apply andb_prop in Hom. destruct Hom as [Homs Homr].
-    cbn [map] in Hnd. unfold fkey at 1 in Hnd. cbn [fst] in Hnd.
-    apply str_nodup_cons in Hnd. destruct Hnd as [Hk Hndr].
-    destruct (IH Homr Hwr Hndr vr Hr) as (kr & Er & Sub & Ndr & Dr).
-    cbn [enc_fields dec_fields].
+    cbn [forallb] in Hwf, Hom, Hin. apply andb_prop in Hwf. destruct Hwf as [Hws Hwr].
+    apply andb_prop in Hom. destruct Hom as [Homs Homr]. apply andb_prop in Hin. destruct Hin as [Hins Hinr].
+    assert (Hfk : flat_keys ((k, m, s) :: fr) = fkeys (k, m, s) ++ flat_keys fr) by reflexivity.
+    rewrite Hfk in Hnd. apply str_nodup_app in Hnd. destruct Hnd as (Hnk & Hndr & Hdisj).
+    destruct (IH Homr Hinr Hwr Hndr vr Hr) as (kr & Er & Sub & Ndr & Dr).
+    cbn [snd] in Hx. cbn [enc_fields dec_fields].
     destruct ((is_omit m && is_empty s v) || (is_opt m && is_nil v)) eqn:E.
     + (* optional nil field / empty omitempty field: skipped by the encoder, absent for the decoder, which leaves
          nil resp. the zero value *)
-      assert (Hz : (is_opt m = true /\ v = VNil) \/ (is_opt m = false /\ is_omit m = true /\ v = zero_of s)).
-      { destruct m; cbn [is_omit is_opt andb orb negb] in E, Homs; try discriminate.
-        - left. split; [reflexivity|]. destruct v; try discriminate; reflexivity.
-        - right. split; [reflexivity|]. split; [reflexivity|]. apply empty_zero; [exact Homs|rewrite orb_false_r in E; exact E]. }
+      assert (Hz : is_inline m = false /\
+                   ((is_opt m = true /\ v = VNil) \/ (is_opt m = false /\ is_omit m = true /\ v = zero_of s))).
+      { destruct m; cbn [is_omit is_opt is_inline andb orb negb] in E, Homs |- *; try discriminate.
+        - split; [reflexivity|]. left. split; [reflexivity|]. destruct v; try discriminate; reflexivity.
+        - split; [reflexivity|]. right. split; [reflexivity|]. split; [reflexivity|].
+          apply empty_zero; [exact Homs|rewrite orb_false_r in E; exact E]. }
+      destruct Hz as [Hi Hz].
+      assert (Hfk' : fkeys (k, m, s) = [k]) by (cbn [fkeys]; rewrite Hi; reflexivity).
+      rewrite Hfk' in Hfk, Hdisj.
+      assert (Hk : ~ In k (flat_keys fr)) by (apply Hdisj; left; reflexivity).
       exists kr. split; [exact Er|]. split; [|split; [exact Ndr|]].
-      * intros k' H. right. apply Sub. exact H.
-      * intros o H1 H2.
+      * intros k' H. rewrite Hfk. right. apply Sub. exact H.
+      * intros o H1 H2. rewrite Hi.
         assert (Hkn : ~ In k (map fst kr)) by (intros H; apply Hk, Sub, H).
-        rewrite (H2 k (or_introl eq_refl) Hkn).
+        assert (Hl : jlookup k o = None) by (apply H2; [rewrite Hfk; left; reflexivity|exact Hkn]).
+        rewrite Hl.
         assert (Hdr : dec_fields (jdecode true) o fr = Ok vr).
-        { apply (Dr o H1). intros k' Hin Hn. apply H2; [right; exact Hin|exact Hn]. }
+        { apply (Dr o H1). intros k' Hin' Hn. apply H2; [rewrite Hfk; right; exact Hin'|exact Hn]. }
         destruct Hz as [[Em ->]|[Em [Eo ->]]]; rewrite Em; [|rewrite Eo]; rewrite Hdr; reflexivity.
-    + try rewrite E in Hv. cbn [orb] in Hv. cbn [snd] in Hx.
-      destruct (Hx Hws v Hv) as (j & Ej & Dj).
-      rewrite Ej, Er. cbn [bind].
-      exists ((k, j) :: kr). split; [reflexivity|]. split; [|split].
-      * intros k' [H|H]; [left; exact H|right; apply Sub; exact H].
-      * cbn [map fst]. apply str_nodup_cons. split; [|exact Ndr]. intros H. apply Hk, Sub, H.
-      * intros o H1 H2. rewrite (H1 k j (or_introl eq_refl)). rewrite Dj. cbn [bind].
-        rewrite (Dr o).
-        -- reflexivity.
-        -- intros k' j' H. apply H1. right. exact H.
-        -- intros k' Hin Hn. apply H2; [right; exact Hin|].
-           cbn [map fst]. intros [H|H]; [|exact (Hn H)]. subst k'. exact (Hk Hin).
+    + try rewrite E in Hv. cbn [orb] in Hv.
+      destruct (is_inline m) eqn:Ei.
+      * (* inlined / embedded struct: its entries are spliced into, and read back from, the enclosing object *)
+        cbn [negb orb] in Hins.
+        destruct (Hx Hws) as [_ Hro]. destruct (Hro Hins v Hv) as (ks & Es & Subs & Nds & Ds).
+        rewrite Es, Er. cbn [bind].
+        assert (Hfk' : fkeys (k, m, s) = skeys s) by (cbn [fkeys]; rewrite Ei; reflexivity).
+        rewrite Hfk' in Hfk, Hdisj.
+        exists (ks ++ kr). split; [reflexivity|]. split; [|split].
+        -- intros k' H. rewrite map_app in H. apply in_app_or in H. rewrite Hfk. apply in_or_app.
+           destruct H as [H|H]; [left; apply Subs; exact H|right; apply Sub; exact H].
+        -- rewrite map_app. apply str_nodup_app. split; [exact Nds|]. split; [exact Ndr|].
+           intros x Hx1 Hx2. apply (Hdisj x); [apply Subs; exact Hx1|apply Sub; exact Hx2].
+        -- intros o H1 H2.
+           assert (Hds : jdecode true s (JObj o) = Ok v).
+           { apply Ds.
+             - intros k' j' H. apply H1. apply in_or_app. left. exact H.
+             - intros k' Hin' Hn. apply H2; [rewrite Hfk; apply in_or_app; left; exact Hin'|].
+               rewrite map_app. intros H. apply in_app_or in H. destruct H as [H|H]; [exact (Hn H)|].
+               apply (Hdisj k' Hin'). apply Sub. exact H. }
+           assert (Hdr : dec_fields (jdecode true) o fr = Ok vr).
+           { apply Dr.
+             - intros k' j' H. apply H1. apply in_or_app. right. exact H.
+             - intros k' Hin' Hn. apply H2; [rewrite Hfk; apply in_or_app; right; exact Hin'|].
+               rewrite map_app. intros H. apply in_app_or in H. destruct H as [H|H]; [|exact (Hn H)].
+               apply (Hdisj k'); [apply Subs; exact H|exact Hin']. }
+           rewrite Hds. cbn [bind]. rewrite Hdr. reflexivity.
+      * assert (Hfk' : fkeys (k, m, s) = [k]) by (cbn [fkeys]; rewrite Ei; reflexivity).
+        rewrite Hfk' in Hfk, Hdisj.
+        assert (Hk : ~ In k (flat_keys fr)) by (apply Hdisj; left; reflexivity).
+        destruct (Hx Hws) as [Hrt _]. destruct (Hrt v Hv) as (j & Ej & Dj).
+        rewrite Ej, Er. cbn [bind].
+        exists ((k, j) :: kr). split; [reflexivity|]. split; [|split].
+        -- intros k' [H|H]; rewrite Hfk; [left; exact H|right; apply Sub; exact H].
+        -- cbn [map fst]. apply str_nodup_cons. split; [|exact Ndr]. intros H. apply Hk, Sub, H.
+        -- intros o H1 H2. rewrite (H1 k j (or_introl eq_refl)). rewrite Dj. cbn [bind].
+           rewrite (Dr o).
+           ++ reflexivity.
+           ++ intros k' j' H. apply H1. right. exact H.
+           ++ intros k' Hin' Hn. apply H2; [rewrite Hfk; right; exact Hin'|].
+              cbn [map fst]. intros [H|H]; [|exact (Hn H)]. subst k'. exact (Hk Hin').
+Qed.
+
+Lemma struct_rto : forall ptr code fs,
+  Forall (fun f : string * fmode * schema => wf_schema (snd f) = true -> rt2 (snd f)) fs ->
+  wf_schema (SStruct ptr code fs) = true -> rto (SStruct ptr code fs).
+Proof.
+  intros ptr code fs HF Hwf v Ht.
+  pose proof (skeys_struct ptr code fs) as Hsk.
+  cbn [wf_schema] in Hwf. apply andb_prop in Hwf. destruct Hwf as [Hwf Hcode].
+  apply andb_prop in Hwf. destruct Hwf as [Hwf Hnd]. apply andb_prop in Hwf. destruct Hwf as [Hwf Hws].
+  apply andb_prop in Hwf. destruct Hwf as [Hwf Hin]. apply andb_prop in Hwf. destruct Hwf as [Hok Hom].
+  rewrite Hsk in Hnd. apply str_nodup_app in Hnd. destruct Hnd as (Hnc & Hndf & Hdisj).
+  assert (Hx : exists vs, fields_have_type has_type fs vs = true /\ v = (if ptr then VPtr (VList vs) else VList vs)).
+  { cbn [has_type] in Ht. destruct ptr.
+    - destruct v; try discriminate. destruct v; try discriminate. eauto.
+    - destruct v; try discriminate. eauto. }
+  destruct Hx as (vs & Hfs & ->).
+  destruct (fields_rt fs HF Hom Hin Hws Hndf vs Hfs) as (kvs & Ek & Sub & Ndk & Dk).
+  exists (code_entry code ++ kvs).
+  split; [cbn [jencode]; destruct ptr; rewrite Hok, Ek; reflexivity|].
+  assert (Hck : map fst (code_entry code) = code_keys code) by (destruct code; reflexivity).
+  split; [|split].
+  - intros k H. rewrite Hsk. rewrite map_app, Hck in H. apply in_app_or in H. apply in_or_app.
+    destruct H as [H|H]; [left; exact H|right; apply Sub; exact H].
+  - rewrite map_app, Hck. apply str_nodup_app. split; [exact Hnc|]. split; [exact Ndk|].
+    intros x H1 H2. apply (Hdisj x H1). apply Sub. exact H2.
+  - intros o H1 H2.
+    assert (Hcc : check_code code o = None).
+    { destruct code as [c|]; [|reflexivity]. apply N.ltb_lt in Hcode. unfold check_code.
+      rewrite (H1 key_type (JNum (Z.of_N c))); [|left; reflexivity].
+      rewrite conv_in_range; [rewrite Z.eqb_refl; reflexivity|].
+      unfold in_range. apply andb_true_intro. split; [apply Z.leb_le|apply Z.ltb_lt]; lia. }
+    assert (Hdf : dec_fields (jdecode true) o fs = Ok vs).
+    { apply Dk.
+      - intros k j Hin'. apply H1. apply in_or_app. right. exact Hin'.
+      - intros k Hin' Hn. apply H2; [rewrite Hsk; apply in_or_app; right; exact Hin'|].
+        rewrite map_app, Hck. intros H. apply in_app_or in H.
+        destruct H as [H|H]; [exact (Hdisj k H Hin')|exact (Hn H)]. }
+    cbn [jdecode]. rewrite Hcc, Hok, Hdf. cbn [bind]. destruct ptr; reflexivity.
 Qed.
 
 Lemma struct_rt : forall ptr code fs,
-  Forall (fun f : string * fmode * schema => wf_schema (snd f) = true -> rt (snd f)) fs ->
+  Forall (fun f : string * fmode * schema => wf_schema (snd f) = true -> rt2 (snd f)) fs ->
   wf_schema (SStruct ptr code fs) = true -> rt (SStruct ptr code fs).
-Proof.
-  intros ptr code fs HF Hwf v Ht.
-  cbn [wf_schema] in Hwf. apply andb_prop in Hwf. destruct Hwf as [Hwf Hcode].
-  apply andb_prop in Hwf. destruct Hwf as [Hwf Hnd]. apply andb_prop in Hwf. destruct Hwf as [Hok Hws].
-  apply andb_prop in Hok. destruct Hok as [Hok Hom].
-  assert (Hbody : forall x, (match x with VList vs => fields_have_type has_type fs vs | _ => false end) = true ->
-            exists o, (match x with
-                       | VList vs => if fields_ok fs then let* kvs := enc_fields jencode fs vs in Ok (JObj (code_entry code ++ kvs))
-                                     else Err EUnsupported
-                       | _ => Err EType end) = Ok (JObj o)
-                      /\ check_code code o = None /\ dec_fields (jdecode true) o fs = match x with VList vs => Ok vs | _ => Err EType end).
-  { intros x Hx. destruct x; try discriminate. rewrite Hok.
-    destruct (fields_rt fs HF Hom Hws Hnd l Hx) as (kvs & Ek & Sub & Ndk & Dk).
-    rewrite Ek. cbn [bind]. exists (code_entry code ++ kvs). split; [reflexivity|].
-    destruct code as [c|].
-    - apply andb_prop in Hcode. destruct Hcode as [Hc Hty]. apply N.ltb_lt in Hc.
-      apply negb_true_iff, existsb_streqb_false in Hty.
-      assert (Htk : ~ In key_type (map fst kvs)) by (intros H; apply Hty, Sub, H).
-      cbn [code_entry app]. split.
-      + unfold check_code. cbn [jlookup]. rewrite String.eqb_refl.
-        rewrite conv_in_range; [rewrite Z.eqb_refl; reflexivity|].
-        unfold in_range. apply andb_true_intro. split; [apply Z.leb_le|apply Z.ltb_lt]; lia.
-      + apply Dk.
-        * intros k j Hin. apply jlookup_in; [|right; exact Hin].
-          cbn [map fst]. apply str_nodup_cons. split; assumption.
-        * intros k Hin Hn. apply jlookup_notin. cbn [map fst]. intros [H|H]; [|exact (Hn H)].
-          subst k. exact (Hty Hin).
-    - cbn [code_entry app]. split; [reflexivity|]. apply Dk.
-      + intros k j Hin. apply jlookup_in; assumption.
-      + intros k Hin Hn. apply jlookup_notin. exact Hn. }
-  cbn [has_type] in Ht. cbn [jencode jdecode].
-  destruct ptr.
-  - destruct v; try discriminate. destruct (Hbody v Ht) as (o & Eo & Cc & Dd).
-    exists (JObj o). split; [exact Eo|]. rewrite Cc, Hok, Dd. destruct v; try discriminate. reflexivity.
-  - destruct (Hbody v Ht) as (o & Eo & Cc & Dd).
-    exists (JObj o). split; [exact Eo|]. rewrite Cc, Hok, Dd. destruct v; try discriminate. reflexivity.
-Qed.
+Proof. intros. apply rto_rt. apply struct_rto; assumption. Qed.
 
 (* ---------- slices and arrays ---------- *)
 Lemma list_rt : forall e, rt e -> forall vs, forallb (has_type e) vs = true ->
@@ -218,7 +298,7 @@ Proof.
 Qed.
 
 Lemma iface_rt : forall alts,
-  Forall (fun a : N * schema => wf_schema (snd a) = true -> rt (snd a)) alts ->
+  Forall (fun a : N * schema => wf_schema (snd a) = true -> rt2 (snd a)) alts ->
   wf_schema (SIface alts) = true -> rt (SIface alts).
 Proof.
   intros alts HF Hwf v Ht.
@@ -236,12 +316,11 @@ Proof.
     cbn [alt_has_type] in Ht. cbn [find_alt].
     destruct (code =? c)%N eqn:E.
     - apply N.eqb_eq in E. subst c. exists a. split; [reflexivity|]. split; [reflexivity|].
-      split; [exact Ht|]. split; [exact Hx|].
+      split; [exact Ht|]. split; [exact (fun w => proj1 (Hx w))|].
       destruct a; try discriminate. destruct ptr; try discriminate. destruct code0 as [c'|]; try discriminate.
       apply andb_prop in Ha. destruct Ha as [Ec Hw]. apply N.eqb_eq in Ec. subst c'.
       split; [|exists fs; split; [reflexivity|exact Hw]].
-      cbn [wf_schema] in Hw. apply andb_prop in Hw. destruct Hw as [_ Hc].
-      apply andb_prop in Hc. destruct Hc as [Hc _]. apply N.ltb_lt in Hc. exact Hc.
+      cbn [wf_schema] in Hw. apply andb_prop in Hw. destruct Hw as [_ Hc]. apply N.ltb_lt in Hc. exact Hc.
     - apply IH; assumption. }
   destruct H as (a & Fe & Fd & Hta & Hrt & Hc & fs & Ea & Hwa).
   destruct (Hrt Hwa v Hta) as (j & Ej & Dj).
@@ -259,9 +338,9 @@ Proof.
 Qed.
 
 (* ---------- the theorem ---------- *)
-Theorem jroundtrip : forall s, wf_schema s = true -> rt s.
+Theorem jroundtrip2 : forall s, wf_schema s = true -> rt2 s.
 Proof.
-  induction s using schema_ind'; intros Hwf.
+  induction s using schema_ind'; intros Hwf; (split; [|try (intros Hs; discriminate Hs)]).
   - intros v H. destruct v; try discriminate. eexists. split; reflexivity.
   - intros v H. destruct v; try discriminate. eexists. split; [reflexivity|].
     cbn [jdecode has_type] in *. rewrite conv_in_range by exact H. reflexivity.
@@ -289,26 +368,43 @@ Proof.
     rewrite parse_uint64_fmt by lia. cbn [bind]. unfold wrap_i64.
     replace (z <? 9223372036854775808) with true by (symmetry; apply Z.ltb_lt; lia). reflexivity.
   - apply struct_rt; assumption.
+  - intros _. apply struct_rto; assumption.
   - cbn [wf_schema] in Hwf. apply andb_prop in Hwf. destruct Hwf as [_ Hwe].
     intros v H. destruct v; try discriminate. cbn [has_type] in H.
-    destruct (list_rt s (IHs Hwe) l H) as (js & Es & Ds).
+    destruct (list_rt s (proj1 (IHs Hwe)) l H) as (js & Es & Ds).
     exists (JArr js). cbn [jencode jdecode seq_view]. rewrite Es. split; [reflexivity|].
     cbn [bind]. rewrite Ds. reflexivity.
   - cbn [wf_schema] in Hwf. apply andb_prop in Hwf. destruct Hwf as [_ Hwe].
     intros v H. destruct v; try discriminate. cbn [has_type] in H.
     apply andb_prop in H. destruct H as [Hn H].
-    destruct (list_rt s (IHs Hwe) l H) as (js & Es & Ds).
+    destruct (list_rt s (proj1 (IHs Hwe)) l H) as (js & Es & Ds).
     exists (JArr js). cbn [jencode jdecode seq_view]. rewrite Hn, Es. split; [reflexivity|].
     cbn [bind]. rewrite Ds. cbn [bind]. rewrite Hn. reflexivity.
   - cbn [wf_schema] in Hwf. apply andb_prop in Hwf. destruct Hwf as [Hks Hwv].
     assert (Hwk : wf_schema s1 = true) by (destruct s1; try discriminate; reflexivity).
     intros v H. destruct v; try discriminate. cbn [has_type] in H.
     apply andb_prop in H. destruct H as [Ht Hnd].
-    destruct (entries_rt s1 s2 Hks (IHs1 Hwk) (IHs2 Hwv) l [] Ht Hnd) as (es & Ee & De).
+    destruct (entries_rt s1 s2 Hks (proj1 (IHs1 Hwk)) (proj1 (IHs2 Hwv)) l [] Ht Hnd) as (es & Ee & De).
     { intros kv _. reflexivity. }
     exists (JObj es). cbn [jencode jdecode]. rewrite Ee. split; [reflexivity|]. rewrite De. reflexivity.
   - apply iface_rt; assumption.
+  - (* byte array with an object code and / or behind a pointer *)
+    intros v H. cbn [wf_schema] in Hwf. cbn [has_type] in H. cbn [jencode jdecode].
+    assert (Hv : exists b, String.length b = n /\ v = (if ptr then VPtr (VStr b) else VStr b)).
+    { destruct ptr.
+      - destruct v; try discriminate. destruct v; try discriminate. apply Nat.eqb_eq in H. eauto.
+      - destruct v; try discriminate. apply Nat.eqb_eq in H. eauto. }
+    destruct Hv as (b & Hn & ->). subst n.
+    destruct code as [c|].
+    + apply andb_prop in Hwf. destruct Hwf as [_ Hk]. apply negb_true_iff in Hk.
+      destruct ptr; (eexists; split; [reflexivity|]); cbn [jlookup bind]; rewrite Hk, String.eqb_refl;
+        rewrite decode_encode_hex; cbn [bind]; rewrite fit_length; reflexivity.
+    + destruct ptr; (eexists; split; [reflexivity|]); cbn [bind];
+        rewrite decode_encode_hex; cbn [bind]; rewrite fit_length; reflexivity.
 Qed.
+
+Theorem jroundtrip : forall s, wf_schema s = true -> rt s.
+Proof. intros s H. exact (proj1 (jroundtrip2 s H)). Qed.
 
 (* ---------- JSONEncode / JSONDecode entry points ---------- *)
 Lemma bind_ok : forall A B (r : res A) (f : A -> res B) b, bind r f = Ok b -> exists a, r = Ok a /\ f a = Ok b.
@@ -323,7 +419,10 @@ Proof.
   - destruct vs as [|v vr]; [discriminate|]. cbn [enc_fields] in E.
     destruct ((is_omit m && is_empty s v) || (is_opt m && is_nil v)); [eapply IH; exact E|].
     apply bind_ok in E. destruct E as (j & Ej & E). apply bind_ok in E. destruct E as (r & Er & E).
-    inversion E; subst. cbn [forallb snd]. rewrite (Hx v j Ej), (IH vr r Er). reflexivity.
+    destruct (is_inline m).
+    + destruct j; try discriminate. inversion E; subst. pose proof (Hx v _ Ej) as Hj. cbn [json_ok snd] in Hj.
+      rewrite forallb_app, Hj, (IH vr r Er). reflexivity.
+    + inversion E; subst. cbn [forallb snd]. rewrite (Hx v j Ej), (IH vr r Er). reflexivity.
 Qed.
 
 Lemma enc_list_ok : forall (enc : value -> res json) vs js,
@@ -379,6 +478,8 @@ Proof.
     cbn [json_ok]. eapply enc_entries_ok; [|exact Ee]. intros v' j'. apply IHs2.
   - destruct v; try discriminate. destruct alts as [|a0 r0] eqn:Ea; [discriminate|]. rewrite <- Ea in *.
     eapply find_alt_ok; [|exact E]. eapply Forall_impl; [|exact H]. intros a Ha j'. apply Ha.
+  - destruct ptr; [destruct v; try discriminate|]; destruct v; try discriminate; inversion E; subst;
+      destruct code; reflexivity.
 Qed.
 
 Theorem jroundtrip_top : forall code fs v,
